@@ -48,7 +48,10 @@ func firstPackets(thorough bool) []firstPacket {
 		firstPacket{desc: "CONNECT with remaining length 0", raw: []byte{0x10, 0x00}, expect: "close"},
 		firstPacket{desc: "CONNECT with fixed-header flags 1", raw: append([]byte{0x11}, connectBytes("MQTT", 4, 2, 30, []byte("x"))[1:]...), expect: "close"},
 		// the broker waits for the announced body; it must give up at the connect timeout at the latest
-		firstPacket{desc: "CONNECT announcing 16 MiB and sending nothing", raw: []byte{0x10, 0x80, 0x80, 0x80, 0x08}, expect: "pending"})
+		firstPacket{desc: "CONNECT announcing 16 MiB and sending nothing", raw: []byte{0x10, 0x80, 0x80, 0x80, 0x08}, expect: "pending"},
+		// a remaining-length field of five bytes is no MQTT 3.1.1 packet, whatever it announces
+		firstPacket{desc: "CONNECT with a five-byte length field announcing 512 MiB", raw: []byte{0x10, 0x80, 0x80, 0x80, 0x80, 0x02}, expect: "close"},
+		firstPacket{desc: "CONNECT with a five-byte length field announcing 12 bytes", raw: append([]byte{0x10, 0x8c, 0x80, 0x80, 0x80, 0x00}, connectBytes("MQTT", 4, 2, 30, []byte("x"))[2:]...), expect: "close"})
 	// (b) CONNECT field product
 	cid := []byte("c1")
 	for _, name := range []string{"MQTT", "MQIsdp", "MQTX", ""} {
